@@ -35,6 +35,7 @@ type Options struct {
 	KnobConst    string            // name of an integer constant to turn into `var X = rt.Knob(<old>)`; "" = none
 	DeferAtExit  bool              // insert `defer rt.AtExit(-1)` at the top of main.main
 	CoopGo       bool              // run goroutines as cooperative tasks: `go f(a)` -> rt.Go1(f, a), CoopRedirect applied; only if every go statement is rewritable and there are no channel operations
+	CoopChans    bool              // with CoopGo: also rewrite channel types and operations to rt.Chan[T] (select stays unsupported)
 	CoopRedirect map[string]string // extra import redirections that only make sense together with CoopGo (sync, runtime)
 	Env          []string
 	SkipTestFile bool
@@ -47,23 +48,25 @@ type MapSite struct {
 }
 
 type Census struct {
-	Packages       int            `json:"packages"`
-	Files          int            `json:"files"`
-	StepSites      int            `json:"step_sites"`
-	StepSiteNames  []string       `json:"-"` // index = site number: "file:line func"
-	MapSites       []MapSite      `json:"map_sites"`
-	Redirected     map[string]int `json:"redirected_imports"`
-	GoStmts        []string       `json:"go_statements"`
-	GoUnrewritable []string       `json:"go_statements_not_rewritable"`
-	CoopEnabled    bool           `json:"goroutines_scheduled_by_simulator"`
-	Selects        []string       `json:"select_statements"`
-	ChanOps        []string       `json:"channel_operations"`
-	SyncUses       []string       `json:"sync_uses"`
-	UnsafeUses     []string       `json:"unsafe_uses"`
-	EnvReads       []string       `json:"env_reads"`      // os.Getenv/Environ/LookupEnv, runtime.NumCPU/GOMAXPROCS, exec
-	MapIterCalls   []string       `json:"map_iter_calls"` // maps.Keys/Values/All, reflect MapRange/MapKeys, sync.Map.Range
-	PointerFormat  []string       `json:"pointer_format"` // %p verbs in string literals
-	KnobFound      bool           `json:"knob_found"`
+	Packages         int            `json:"packages"`
+	Files            int            `json:"files"`
+	StepSites        int            `json:"step_sites"`
+	StepSiteNames    []string       `json:"-"` // index = site number: "file:line func"
+	MapSites         []MapSite      `json:"map_sites"`
+	Redirected       map[string]int `json:"redirected_imports"`
+	GoStmts          []string       `json:"go_statements"`
+	GoUnrewritable   []string       `json:"go_statements_not_rewritable"`
+	CoopEnabled      bool           `json:"goroutines_scheduled_by_simulator"`
+	ChanUnrewritable []string       `json:"channel_constructs_not_rewritable"`
+	ChanTypes        int            `json:"channel_types"`
+	Selects          []string       `json:"select_statements"`
+	ChanOps          []string       `json:"channel_operations"`
+	SyncUses         []string       `json:"sync_uses"`
+	UnsafeUses       []string       `json:"unsafe_uses"`
+	EnvReads         []string       `json:"env_reads"`      // os.Getenv/Environ/LookupEnv, runtime.NumCPU/GOMAXPROCS, exec
+	MapIterCalls     []string       `json:"map_iter_calls"` // maps.Keys/Values/All, reflect MapRange/MapKeys, sync.Map.Range
+	PointerFormat    []string       `json:"pointer_format"` // %p verbs in string literals
+	KnobFound        bool           `json:"knob_found"`
 }
 
 type edit struct {
@@ -85,6 +88,10 @@ type fileEdits struct {
 
 func (fe *fileEdits) replCoop(off, del int, text string) {
 	fe.edits = append(fe.edits, edit{off, del, text, len(fe.edits), true})
+}
+
+func (fe *fileEdits) insCoop(off int, text string) {
+	fe.edits = append(fe.edits, edit{off, 0, text, len(fe.edits), true})
 }
 
 func (fe *fileEdits) ins(off int, text string) {
@@ -152,7 +159,7 @@ func Instrument(o Options) (*Census, error) {
 			all = append(all, fe)
 		}
 	}
-	c.CoopEnabled = o.CoopGo && len(c.GoUnrewritable) == 0 && len(c.ChanOps) == 0 && len(c.Selects) == 0
+	c.CoopEnabled = o.CoopGo && len(c.GoUnrewritable) == 0 && len(c.Selects) == 0 && (len(c.ChanOps) == 0 || o.CoopChans && len(c.ChanUnrewritable) == 0)
 	for _, fe := range all {
 		var edits []edit
 		need := fe.needRT
@@ -287,6 +294,26 @@ func rewriteFile(o Options, c *Census, p *packages.Package, f *ast.File, fname s
 			c.StepSites++
 		}
 	}
+	// channel pre-pass: which receives are of the two-value form
+	recv2 := map[*ast.UnaryExpr]bool{}
+	inMake := map[*ast.ChanType]bool{}
+	ast.Inspect(f, func(n ast.Node) bool {
+		switch x := n.(type) {
+		case *ast.AssignStmt:
+			if len(x.Lhs) == 2 && len(x.Rhs) == 1 {
+				if u, ok := x.Rhs[0].(*ast.UnaryExpr); ok && u.Op == token.ARROW {
+					recv2[u] = true
+				}
+			}
+		case *ast.ValueSpec:
+			if len(x.Names) == 2 && len(x.Values) == 1 {
+				if u, ok := x.Values[0].(*ast.UnaryExpr); ok && u.Op == token.ARROW {
+					recv2[u] = true
+				}
+			}
+		}
+		return true
+	})
 	mapN := 0
 	ast.Inspect(f, func(n ast.Node) bool {
 		switch x := n.(type) {
@@ -327,6 +354,24 @@ func rewriteFile(o Options, c *Census, p *packages.Package, f *ast.File, fname s
 				}
 				if _, ok := tv.Type.Underlying().(*types.Chan); ok {
 					c.ChanOps = append(c.ChanOps, site(x.Pos())+" range-chan")
+					if o.CoopGo && o.CoopChans {
+						// for v := range c { body }  ->  for { v, ok := (c).Recv2(); if !ok { break }; body }
+						chText := string(src[off(x.X.Pos()):off(x.X.End())])
+						mapN++
+						okv := "verifok" + strconv.Itoa(mapN)
+						pre := ""
+						switch {
+						case x.Key == nil:
+							pre = "_, " + okv + " := (" + chText + ").Recv2(); if !" + okv + " { break }; "
+						case x.Tok == token.DEFINE:
+							pre = string(src[off(x.Key.Pos()):off(x.Key.End())]) + ", " + okv + " := (" + chText + ").Recv2(); if !" + okv + " { break }; "
+						default:
+							vv := "verifv" + strconv.Itoa(mapN)
+							pre = vv + ", " + okv + " := (" + chText + ").Recv2(); if !" + okv + " { break }; " + string(src[off(x.Key.Pos()):off(x.Key.End())]) + " = " + vv + "; "
+						}
+						fe.replCoop(off(x.For), off(x.Body.Lbrace)-off(x.For), "for ")
+						fe.insCoop(off(x.Body.Lbrace)+1, " "+pre)
+					}
 				}
 			}
 			_ = isMap
@@ -353,9 +398,69 @@ func rewriteFile(o Options, c *Census, p *packages.Package, f *ast.File, fname s
 			c.Selects = append(c.Selects, site(x.Pos()))
 		case *ast.SendStmt:
 			c.ChanOps = append(c.ChanOps, site(x.Pos())+" send")
+			if o.CoopGo && o.CoopChans {
+				// c <- v   ->   (c).Send(v)
+				fe.insCoop(off(x.Chan.Pos()), "(")
+				fe.replCoop(off(x.Chan.End()), off(x.Value.Pos())-off(x.Chan.End()), ").Send(")
+				fe.insCoop(off(x.Value.End()), ")")
+			}
 		case *ast.UnaryExpr:
 			if x.Op == token.ARROW {
 				c.ChanOps = append(c.ChanOps, site(x.Pos())+" recv")
+				if o.CoopGo && o.CoopChans {
+					method := ".Recv()"
+					if recv2[x] {
+						method = ".Recv2()"
+					}
+					// <-c   ->   (c).Recv()
+					fe.replCoop(off(x.OpPos), off(x.X.Pos())-off(x.OpPos), "(")
+					fe.insCoop(off(x.X.End()), ")"+method)
+				}
+			}
+		case *ast.ChanType:
+			c.ChanTypes++
+			if o.CoopGo && o.CoopChans && !inMake[x] {
+				if _, nested := x.Value.(*ast.ChanType); nested {
+					c.ChanUnrewritable = append(c.ChanUnrewritable, site(x.Pos())+" nested channel type")
+				}
+				// chan T / <-chan T / chan<- T   ->   *rt.Chan[T]
+				fe.replCoop(off(x.Pos()), off(x.Value.Pos())-off(x.Pos()), "*"+rtAlias+".Chan[")
+				fe.insCoop(off(x.Value.End()), "]")
+				fe.coopRT = true
+			}
+		case *ast.CallExpr:
+			if id, ok := x.Fun.(*ast.Ident); ok && o.CoopGo && o.CoopChans {
+				if b, isB := p.TypesInfo.Uses[id].(*types.Builtin); isB {
+					switch b.Name() {
+					case "make":
+						if ct, ok := x.Args[0].(*ast.ChanType); ok {
+							inMake[ct] = true
+							if _, nested := ct.Value.(*ast.ChanType); nested {
+								c.ChanUnrewritable = append(c.ChanUnrewritable, site(x.Pos())+" nested channel type")
+							}
+							// make(chan T, n)  ->  rt.MakeChan[T](n)
+							elem := string(src[off(ct.Value.Pos()):off(ct.Value.End())])
+							size := "0"
+							if len(x.Args) > 1 {
+								size = string(src[off(x.Args[1].Pos()):off(x.Args[1].End())])
+							}
+							fe.replCoop(off(x.Pos()), off(x.End())-off(x.Pos()), rtAlias+".MakeChan["+elem+"]("+size+")")
+							fe.coopRT = true
+						}
+					case "close":
+						// close(c)  ->  (c).Close()
+						fe.replCoop(off(x.Pos()), off(x.Args[0].Pos())-off(x.Pos()), "(")
+						fe.replCoop(off(x.Args[0].End()), off(x.End())-off(x.Args[0].End()), ").Close()")
+					case "len", "cap":
+						if tv, ok := p.TypesInfo.Types[x.Args[0]]; ok {
+							if _, isChan := tv.Type.Underlying().(*types.Chan); isChan {
+								m := map[string]string{"len": "Len", "cap": "Cap"}[b.Name()]
+								fe.replCoop(off(x.Pos()), off(x.Args[0].Pos())-off(x.Pos()), "(")
+								fe.replCoop(off(x.Args[0].End()), off(x.End())-off(x.Args[0].End()), ")."+m+"()")
+							}
+						}
+					}
+				}
 			}
 		case *ast.BasicLit:
 			if x.Kind == token.STRING && strings.Contains(x.Value, "%p") {
